@@ -9,7 +9,8 @@ import common
 import corr
 import fstree
 
-RULE = ("result tables of 0, 1 and many rows x 1..6 columns whose values come from adversarial file names (every "
+RULE = ("long rows first (records of 1..20 KiB built from deep multi-byte paths, every alignment); " +
+        "result tables of 0, 1 and many rows x 1..6 columns whose values come from adversarial file names (every "
         "printable ASCII punctuation, control characters legal in names, multi-byte UTF-8) x the six formats x the four "
         "result paths (streamed, ordered, aggregate row, grouped rows); (a) CLI bytes vs the Lean model, (b) oracle: "
         "Python json / csv / html.parser decode of the output equals the table decoded from the `into list` run of the "
@@ -171,6 +172,39 @@ def run(ctx):
                         bad = [g for g, w in zip(canon(got), canon(want)) if g != w][:3]
                         ctx.oracle_fail("%s output does not decode to the rows of the list output" % fmt, case, detail={"first_differences": bad})
         common.rm_tree(alpha.root)
+        # long rows: deep directories with multi-byte names and path-like columns repeated until a record is
+        # 1..20 KiB long, at every alignment of the characters (writers flush their buffers wherever they are full)
+        r = ctx.rng.fork()
+        ents = []
+        d = ""
+        for i in range(5):
+            d = (d + "/" if d else "") + r.choice(["日本", "жф", "é", "€x"]) * r.range(20, 40)
+            ents.append({"path": d, "kind": "d", "mode": 0o755, "mtime": 1700000000})
+        for nm in ("x", "xy", "xyz", "日本", "q\"r"):
+            ents.append({"path": d + "/" + nm, "kind": "f", "size": 1, "mode": 0o644, "mtime": 1700000000})
+        longs = corr.Snap(scratch, ents, subdir="long")
+        for k in ([1, 2, 3, 7, 8, 9, 16] if quick else list(range(1, 24))):
+            for lead in (["name"], ["size", "name"], []):
+                sel = lead + ["path"] * k
+                for path, base in (("streamed", "select %s from . where is_file = true" % ", ".join(sel)),
+                                   ("ordered", "select %s from . where is_file = true order by name desc" % ", ".join(sel))):
+                    for fmt in (["csv", "json", "html"] if k in (1, 8, 9) or not quick else ["csv"]):
+                        q = base + " into " + fmt
+                        ctx.case(("long", q))
+                        ctx.distinct.add(("long", k, fmt, path, len(lead), "nt"))
+                        impl = common.run_cli([q], cwd=longs.root, scratch=scratch)
+                        ref = common.run_cli([base + " into list"], cwd=longs.root, scratch=scratch)
+                        case = {"argv": [q], "list_argv": [base + " into list"], "tree": "five nested directories with multi-byte names, record length about %d bytes" % (len(d.encode()) * k)}
+                        got = decode(fmt, impl["out"], len(sel), None)
+                        want = decode("list", ref["out"], len(sel), None)
+                        if isinstance(got, str):
+                            ctx.oracle_fail("output is not well-formed %s: %s" % (fmt, got), case, detail={"out": impl["out"][:200].decode("utf-8", "replace")})
+                            continue
+                        canon = (lambda rows: [tuple(sorted(set(rw))) for rw in rows]) if fmt == "json" else (lambda rows: [tuple(rw) for rw in rows])
+                        if canon(got) != canon(want):
+                            ctx.oracle_fail("%s output does not decode to the rows of the list output (long rows)" % fmt, case,
+                                            detail={"rows_got": len(got), "rows_want": len(want)})
+        common.rm_tree(longs.root)
         for t in range(ntrees):
             r = ctx.rng.fork()
             snap = corr.Snap(scratch, adv_tree(r, r.choice([0, 1, 3, 9])), subdir="t%d" % t, tz=r.choice(list(fstree.TZ_OFFSETS)))
